@@ -240,7 +240,7 @@ def coret_of(func, var='CoreT'):
     return texts.pop()
 
 
-FILTERS = ['yaclib::detail::CoreType', 'yaclib::detail::Is', 'yaclib::ResultState', 'yaclib::detail::Tag', 'yaclib::detail::Core',
+FILTERS = ['yaclib::detail::PromiseCore', 'yaclib::detail::CoreType', 'yaclib::detail::Is', 'yaclib::ResultState', 'yaclib::detail::Tag', 'yaclib::detail::Core',
            'yaclib::detail::BaseCore', 'yaclib::Future', 'yaclib::Task', 'yaclib::detail::Run', 'yaclib::detail::Schedule',
            'yaclib::detail::SetCallback']
 
@@ -474,7 +474,7 @@ def generate(repo, cfg_include, workdir):
     # Impl
     f = one_func(core, 'Impl', 'detail/core.hpp')
     st = stmts(A.body(f))
-    if len(st) != 2 or not ntext(st[0]).startswith('autoasync_done=[&]'):
+    if len(st) != 2 or not ntext(st[0]).replace('[[maybe_unused]]', '').startswith('autoasync_done=[&]'):
         raise E('Core::Impl: unexpected shape')
     lam = A.find_all(st[0], lambda n: n.get('kind') == 'LambdaExpr')
     lb = [c for c in A.kids(lam[0]) if c.get('kind') == 'CompoundStmt'][-1]
@@ -483,8 +483,24 @@ def generate(repo, cfg_include, workdir):
                         'returnDone<SymmetricTransfer,true>(core.templateMoveOrConst<!AsyncShared>());':
         raise E('Core::Impl: async_done changed: `%s`' % body_text(lb))
     cx, cond, then, els = if_parts(st[1])
-    if not cx or ntext(cond) != 'IsRun(Type)' or body_text(then) != 'returnasync_done();' or els is None:
+    if not cx or ntext(cond) != 'IsRun(Type)' or els is None:
         raise E('Core::Impl: Run branch changed')
+    # a Run-type core is entered through Here/Next (a) when its own async result completes, (b) as the head of a Task
+    # that a continuation returned (or a coroutine awaits)
+    rs = stmts(then)
+    if body_text(then) == 'returnasync_done();':
+        run_entry = '.asyncDoneOnly'
+    elif len(rs) == 3 and ntext(rs[1]) == 'this->_executor->Submit(*this)' and ntext(rs[2]) == 'returnNoop<SymmetricTransfer>()':
+        cxr, cr, tr, er = if_parts(rs[0])
+        ir = stmts(tr)
+        if not cxr or ntext(cr) != 'kAsync!=AsyncType::None' or er is not None or len(ir) != 1:
+            raise E('Core::Impl: Run branch changed: `%s`' % ntext(rs[0])[:120])
+        cx2, c2, t2, e2 = if_parts(ir[0])
+        if cx2 or ntext(c2) != 'this->_self.caller!=nullptr' or body_text(t2) != 'returnasync_done();' or e2 is not None:
+            raise E('Core::Impl: Run branch changed: `%s`' % ntext(ir[0])[:120])
+        run_entry = '.asyncDoneIfCallerElseSubmit'
+    else:
+        raise E('Core::Impl: Run branch changed: `%s`' % body_text(then)[:160])
     es = stmts(els)
     if len(es) != 5:
         raise E('Core::Impl: continuation branch changed: %s' % [ntext(s)[:60] for s in es])
@@ -510,7 +526,8 @@ def generate(repo, cfg_include, workdir):
             body_text(e4) != 'auto&core=DownCast<ResultCore<Arg,E>>(caller);' \
                              'returnCallImpl<SymmetricTransfer>(core.templateMoveOrConst<IsFromUnique(Type)>());':
         raise E('Core::Impl: Submit / CallImpl branches changed')
-    L += ['/-! Core::Impl -/', 'def implRunIsAsyncDone : Bool := true', 'def implUnwrappingIsAsyncDone : Bool := true',
+    L += ['/-! Core::Impl -/', 'inductive RunEntry | asyncDoneOnly | asyncDoneIfCallerElseSubmit', 'deriving DecidableEq, Repr',
+          'def implRunEntry : RunEntry := ' + run_entry, 'def implUnwrappingIsAsyncDone : Bool := true',
           'def implIncRef (t : Nat) (kAsync : Bool) : Bool := %s' % e_inc,
           'def implSubmits (t : Nat) : Bool := %s' % e_sub, '']
     # CallResolveAsync
@@ -541,6 +558,22 @@ def generate(repo, cfg_include, workdir):
     L += ['/-! Core::CallResolveAsync -/', 'def asyncDecRefsCaller (t : Nat) : Bool := %s' % e_adr,
           'inductive AsyncEntry | stepHereOnHead | setInline', 'deriving DecidableEq, Repr',
           'def asyncEntry (isTask : Bool) : AsyncEntry := if isTask then %s else %s' % (entry[body_text(t5)], entry[body_text(e5)]), '']
+
+    # PromiseCore::Here (the head of a LazyContract Task entered through Here)
+    pc = D('yaclib::detail::PromiseCore')
+    hs = find_funcs(pc, 'Here', 'promise_core.hpp')
+    texts = {body_text(A.body(h)) for h in hs}
+    if not texts:
+        promise_here = '.inherited'
+    elif texts == {'this->_executor->Submit(*this);returnnullptr;'}:
+        promise_here = '.submit'
+    else:
+        raise E('PromiseCore::Here changed: %s' % sorted(texts))
+    if not find_funcs(pc, 'Call', 'promise_core.hpp') or not find_funcs(pc, 'Drop', 'promise_core.hpp'):
+        raise E('PromiseCore::Call / Drop not found: the translator no longer sees the class')
+    L += ['/-! PromiseCore::Here: `inherited` = UniqueCore::Here (takes the caller for a finished state) -/',
+          'inductive PromiseHere | inherited | submit', 'deriving DecidableEq, Repr',
+          'def promiseCoreHere : PromiseHere := ' + promise_here, '']
 
     # TransferExecutorTo
     base = D('yaclib::detail::BaseCore')
